@@ -40,3 +40,15 @@ def sub_anchor(t: str) -> bool:
     if t == '../':
         return R(out == 'P/')
     return R(len(out) <= len(t))
+
+
+def dict_update_keeps_order(x: int) -> bool:
+    """assigning to an existing key must not move it (CrossHair's dict stand-in re-appended it: a
+    mutant that depended on mapping order was wrongly confirmed)
+    pre: 0 <= x < 3
+    post: _
+    """
+    d = dict({'a': 1, 'b': 2, 'c': 3})
+    d['a'] = x
+    e = dict(reversed(list(d.items())))
+    return R(list(d) == ['a', 'b', 'c'] and list(e) == ['c', 'b', 'a'])
